@@ -68,6 +68,13 @@ def states(tier, seed):
         st = {"family": "unpol", "process": p, "projectile": pr, "heavyness": "light", "scheme": "ZM-VFNS", "pto": 3, "tmc": 0}
         if st not in out:
             out.append(st)
+    # request layouts: cross sections listed BEFORE the structure functions, which are requested with the same kinematic dicts (y included), and every
+    # cross-section point requested twice - the structure functions a cross section is built from are shared objects of the run, and the combination
+    # must hold whatever was assembled from them before
+    for lay in ("xs-first", "dup"):
+        for (p, pr), (h, sc), tmc in itertools.product([("EM", "electron"), ("NC", "positron"), ("CC", "neutrino"), ("CC", "antineutrino")], [("total", "ZM-VFNS"), ("charm", "FFNS3")], [0, 1]):
+            for fam in ("unpol", "pol"):
+                out.append({"family": fam, "process": p, "projectile": pr, "heavyness": h, "scheme": sc, "pto": 1, "tmc": tmc, "layout": lay})
     return out
 
 
@@ -81,12 +88,20 @@ def execute(st):
         xs_kinds = ["g5"]
         sfk = ("g4", "gL", "g1")
     obs = {}
+    lay = st.get("layout", "sf-first")
     sfpts = sorted({(x, q2) for x, q2, y in POINTS})
-    for k in sfk:
-        obs[f"{k}_{h}"] = [cards.kin(x, q2) for x, q2 in sfpts]
-    for k in xs_kinds:
-        obs[f"{k}_{h}"] = [cards.kin(x, q2, y) for x, q2, y in POINTS]
-    out, status = rel.try_run(st, obs)
+    if lay == "xs-first":
+        shared = [cards.kin(x, q2, y) for x, q2, y in POINTS]
+        for k in xs_kinds:
+            obs[f"{k}_{h}"] = shared
+        for k in sfk:
+            obs[f"{k}_{h}"] = shared
+    else:
+        for k in sfk:
+            obs[f"{k}_{h}"] = [cards.kin(x, q2) for x, q2 in sfpts]
+        for k in xs_kinds:
+            obs[f"{k}_{h}"] = [cards.kin(x, q2, y) for x, q2, y in POINTS] * (2 if lay == "dup" else 1)
+    out, status = rel.try_run({k: v for k, v in st.items() if k != "layout"}, obs)
     if status != "ok":
         return {"violations": [], "nontrivial": False, "outcome": status, "transitions": 1, "info": {"n_" + status.split(":")[0]: 1}}
     th = dict(cards.BASE_THEORY)
@@ -94,10 +109,18 @@ def execute(st):
     viol = []
     maxrel = 0.0
     nontrivial = False
-    SF = {k: {pt: yrun.tensors(out[f"{k}_{h}"][i]) for i, pt in enumerate(sfpts)} for k in sfk}
+    if lay == "xs-first":
+        SF = {k: {(x, q2): yrun.tensors(out[f"{k}_{h}"][i]) for i, (x, q2, y) in enumerate(POINTS)} for k in sfk}
+        for k in sfk:  # the same (x,Q2) requested with different y must give the same structure function
+            for i, (x, q2, y) in enumerate(POINTS):
+                if not rel.bit_identical(yrun.tensors(out[f"{k}_{h}"][i]), SF[k][(x, q2)])[0]:
+                    viol.append(_v(st, k, "sf-depends-on-y", f"{k}_{h} at (x,Q2)={(x, q2)} differs between requests that carry different y (cross sections listed first, shared kinematic dicts)"))
+                    break
+    else:
+        SF = {k: {pt: yrun.tensors(out[f"{k}_{h}"][i]) for i, pt in enumerate(sfpts)} for k in sfk}
     ncomp = 0
     for k in xs_kinds:
-        for i, (x, q2, y) in enumerate(POINTS):
+        for i, (x, q2, y) in enumerate(POINTS * (2 if lay == "dup" else 1)):
             res = out[f"{k}_{h}"][i]
             if float(res.x) != x or float(res.Q2) != q2 or float(res.y) != y:
                 viol.append(_v(st, k, "kinematics", f"{k}_{h}[{i}] reports x={res.x} Q2={res.Q2} y={res.y}, requested {(x, q2, y)}"))
